@@ -49,8 +49,10 @@ META = {
              trusted=['ASSUMED extern contract: lsmr returns the minimum-norm least-squares solution (refuted for the default maxiter on the pre-fix tree by the bounded tier: see known_findings C09)', 'np.dot / np.sum / np.allclose deterministic']),
  'C10': dict(technique=DED + ': abstract predicates carries/finite/zeroed with the extended-real algebra of whole parameter vectors; loop invariants of MD, RDA, IG',
              ded='the stored parameters carry -inf at every declared cell (MD) and the stored marginals are zero there (MD, RDA, IG) at every exit, by loop invariants over the solvers; '
-                 'RDA needs the re-application of the structural-zero factor after rebuilding theta (the pre-fix tree fails this obligation).',
-             trusted=['A1-A8 of pv/contracts/inference.py (extended-real algebra of +, -, scalar *, combine, BP-zero), assumed and exercised by the bounded tier']),
+                 'RDA needs the re-application of the structural-zero factor after rebuilding theta (the pre-fix tree fails this obligation). _setup installs potentials that carry the zeros on the cold and the warm-start path. Cell-level contracts of the Factor arithmetic behind the vector algebra (17 obligations).',
+             trusted=['A4 (BP-zero: parameters carrying -inf give marginals that are zero there) and A5 (finite gradient) of pv/contracts/inference.py: assumed, exercised by the bounded tier',
+                      'A1-A3, A6-A8 (extended-real algebra of +, scalar *, += with the structural-zero factor) are established per cell on the real Factor.__add__/__mul__/__rmul__/__radd__/__iadd__ (pv/contracts/cellalg.py) and for - in C01; '
+                      'that CliqueVector operators apply the Factor operator clique by clique (one-line dict comprehensions) and that every structural-zero clique has a containing model clique is read off the code, not under contract']),
  'C11': dict(technique=DED + ': row-count postcondition of the inner synthetic_col under a sum abstraction of numpy arrays; frame obligations (the array synthetic_col rescales in place is private to the call: returns-fresh contracts of GraphicalModel.project, Factor.project/sum/exp, variable_elimination_logspace, alias contracts of transpose/datavector); domain/zero-support/rounding-error clauses by bounded run-time contract',
              ded='synthetic_col (round and sample mode): exactly `total` entries are produced, for all count vectors and totals. '
                  'synthetic_data updates in place only arrays allocated in the same call; GraphicalModel.project returns a newly allocated factor on every path (never the cached marginal), so generation cannot change the model a later call realises.',
